@@ -17,6 +17,8 @@ def opt_kwargs(r, name):
         kw.update(inertia=r.choice([0.1, 0.5, 1.5]), cognitive_weight=r.choice([0.1, 0.5, 2.0]), social_weight=r.choice([0.1, 0.5, 2.0]))
     if name == "SpiralOptimization":
         kw["decay_rate"] = r.choice([0.8, 0.99, 1.1])
+    if name == "GeneticAlgorithmOptimizer":
+        kw.update(n_parents=r.choice([1, 2, 2, 3, 6]), offspring=r.choice([1, 3, 10]), crossover_rate=r.choice([0.5, 0.5, 2.0]))
     if name == "GridSearchOptimizer":
         kw["step_size"] = r.choice([1, 1, 2, 3, 7])
     if name == "DownhillSimplexOptimizer":
